@@ -138,7 +138,10 @@ class History:
             self.nontrivial = True
         value = names[0] if (len(names) == 1 and spelling == "str") else list(names)
         try:
-            self.grid.set_metrics(key, value, overwrite=overwrite)
+            # (the flag spelled as a Python bool, a numpy bool or 0/1 - by turns, derived from the step itself so that a replay is exact)
+            style = (len(names) + len(self.success)) % 3
+            flag = [bool, np.bool_, int][style](overwrite)
+            self.grid.set_metrics(key, value, overwrite=flag)
             raised = None
         except Exception as e:  # noqa: BLE001
             raised = e
